@@ -37,6 +37,7 @@ type genCfg struct {
 	MacroLadder                               int  // n macros, each pasting the next one twice (acyclic; only the last is pasted for real)
 	MutualTypesMissing                        bool // a long type with an unknown reference and a short type referring back to it, the short one last
 	NoHTTP                                    bool // no URL / method directives outside macros
+	PathTypeRefs                              int  // this many URLs whose Path describes its parameter by a reference to an object type
 	EnumMismatch                              int  // 1: a value that is not in its enum (invalid); 2: the same document with the value added to the enum (valid twin)
 	TwinURLs                                  bool // two URLs with identical children (a method with its own Path): one file can be included from both
 	MessyAnn                                  bool // annotations with tabs, runs of spaces and multi-line /* */ form
@@ -370,6 +371,15 @@ func generateDoc(r *rng, cfg genCfg) *Doc {
 			n.Ann = "enum " + fmt.Sprint(i)
 		}
 		body = append(body, n)
+	}
+	if cfg.PathTypeRefs > 0 {
+		body = append(body, &Node{KW: "TYPE", Params: "@ptrobj", Body: []string{"{", `  "a": 1`, "}"}})
+		for i := 0; i < cfg.PathTypeRefs; i++ {
+			body = append(body, &Node{KW: "URL", Params: fmt.Sprintf("/ptr%d/{pid%d}", i, i), Kids: []*Node{
+				{KW: "Path", Body: []string{"{", fmt.Sprintf(`  "pid%d": @ptrobj`, i), "}"}},
+				{KW: "GET", Kids: []*Node{{KW: "200", Params: "any"}}},
+			}})
+		}
 	}
 	if cfg.EnumMismatch > 0 {
 		vals := []string{"[", `  "ok1",`, `  "ok2"`, "]"}
